@@ -12,7 +12,8 @@ META = {
                    "neighbour/coincident set) judged against an independent union-find over vertex indices: families "
                    "without a chop must end in the undefined-grading error, families whose chops agree must end in "
                    "success with every direction carrying its family's count, the propagation loop must stay under its "
-                   "unwinding bound, and two schedules of the same input must not end differently (cross-path query).",
+                   "unwinding bound, the real Mesh.write() - through which every run grades - must leave the file it was "
+                   "pointed at untouched when it fails and complete when it succeeds, and two schedules of the same input must not end differently (cross-path query).",
     "bounds": c01.META["bounds"],
     "outside": c01.META["outside"] + ["iteration order of the set of undefined block numbers (small ints: CPython "
                                         "iterates them in value order deterministically)"],
@@ -28,8 +29,15 @@ def run(sx, topo, order, rots, spec, force=None):
     cells = g1.TOPOLOGIES[topo]
     mesh, blocks = g1.build_mesh(cells, order, rots)
     chops = g1.place_chops(sx, blocks, c01._spec(spec))
-    outcome = g1.grade(mesh, len(cells))
+    outcome = g1.grade(mesh, len(cells), via_write=True)
     sx.reach(outcome)
+    lw = dict(g1.LAST_WRITE)
+    if outcome == "ok":
+        sx.prove(lw["complete"], "a successful write() leaves a complete dictionary (all sections, one hex per block)",
+                 "C02:write:complete", info=lw)
+    elif outcome != "nonterm":
+        sx.prove(lw["untouched"], "a write() that fails for lack of (or conflict between) gradings writes nothing: the file "
+                 "that was there before is untouched, no partial dictionary", f"C02:write:partial:{outcome}", info=lw)
     fams = g1.families(blocks)
     fam_chops = []
     for f in fams:
@@ -97,12 +105,21 @@ def post_job(job, kept, out):
             _core.Ctx.cur = None
 
     groups = {}
+    budget = {"pairs": 40000}        # pairwise schedule comparisons per job (the rest is reported as skipped)
     for rec in kept:
         groups.setdefault(rec["keep"]["flags"], []).append(rec)
     key = f"C02:schedule-dependent:{job['params']['topo']}"
     reported = 0
     for flags, recs in groups.items():
-        for a, b in itertools.combinations(recs, 2):
+        pairs = list(itertools.combinations(recs, 2))
+        if budget["pairs"] <= 0:
+            out["x_determinism_pairs_skipped"] = out.get("x_determinism_pairs_skipped", 0) + len(pairs)
+            continue
+        if len(pairs) > budget["pairs"]:
+            out["x_determinism_pairs_skipped"] = out.get("x_determinism_pairs_skipped", 0) + len(pairs) - budget["pairs"]
+            pairs = pairs[:budget["pairs"]]
+        budget["pairs"] -= len(pairs)
+        for a, b in pairs:
             ka, kb = a["keep"], b["keep"]
             if ka["outcome"] == kb["outcome"] and ka["outcome"] != "ok":
                 continue
